@@ -1,9 +1,9 @@
 /-
-C19 — lemmas: descriptor accounting for the UltraVNC transfer descriptor (`cl->fileTransfer.fd`).
-For a client that does not use the TightVNC extension: every descriptor an `open` of the
-file-transfer code ever produced is, at any later time, either the one recorded in
-`fileTransfer.fd` or has been closed — no handler forgets or overwrites a descriptor without
-closing it (`XInv`), and teardown closes the recorded one.
+C19 — lemmas: descriptor accounting.  Every descriptor an `open` of the file-transfer code ever
+produced (UltraVNC `cl->fileTransfer.fd`, the TightVNC extension's uploadFD / downloadFD) is, at any
+later time, either recorded in the client state or has been closed — no handler forgets or overwrites
+a descriptor without closing it (`XInv`), and teardown closes the recorded ones.  Directory handles:
+`dirDepth` (every successful opendir is closed before its handler returns).
 -/
 import VncModel.FileXfer.Session
 
@@ -20,44 +20,54 @@ def isCloseOf (k : Nat) : Ev → Bool
 /-- a `close(k)` is in the trace (by a handler or by teardown) -/
 def Closed (k : Nat) (s : S) : Prop := ∃ e ∈ s.evs, isCloseOf k e = true
 
-/-- accounting invariant, for a client without the TightVNC extension -/
+/-- `k` is recorded in the client state: the UltraVNC transfer's descriptor or one of the
+TightVNC extension's -/
+def HeldC (k : Nat) (c : Client) : Prop :=
+  c.xf.fd = some k ∨ ∃ t, c.tight = some t ∧ (t.up.fd = some k ∨ t.dn.fd = some k)
+
+/-- the TightVNC client data never records a descriptor without the matching in-progress flag
+(the C code sets and clears them together; the close hook relies on it) -/
+def TightWf (c : Client) : Prop :=
+  ∀ t, c.tight = some t →
+    (∀ k, t.up.fd = some k → t.up.inProgress = true) ∧ (∀ k, t.dn.fd = some k → t.dn.inProgress = true)
+
+/-- accounting invariant -/
 def XInv (s : S) : Prop :=
-  (∀ k, Got k s → s.cl.xf.fd = some k ∨ Closed k s) ∧ s.cl.tightExt = false ∧ s.cl.tight = none
+  (∀ k, Got k s → HeldC k s.cl ∨ Closed k s) ∧ TightWf s.cl
 
 @[simp] theorem got_emit (k e) (s : S) : Got k (emit e s) ↔ (e = .got k ∨ Got k s) := by
   simp [Got, emit, eq_comm]
 @[simp] theorem closed_emit (k e) (s : S) : Closed k (emit e s) ↔ (isCloseOf k e = true ∨ Closed k s) := by
   simp [Closed, emit]
 
-/-- the generic step: the record's descriptor, extension flag and data are kept, nothing new was
-opened, nothing closed is forgotten -/
-theorem xinv_step {s s' : S} (hx : s'.cl.xf.fd = s.cl.xf.fd) (hte : s'.cl.tightExt = s.cl.tightExt)
-    (htt : s.cl.tight = none → s'.cl.tight = none) (hg : ∀ k, Got k s' → Got k s)
-    (hc : ∀ k, Closed k s → Closed k s') (h : XInv s) : XInv s' := by
-  obtain ⟨ha, h1, h2⟩ := h
-  refine ⟨fun k hk => ?_, by rw [hte]; exact h1, htt h2⟩
+/-- the generic step: the record's descriptors are kept, nothing new was opened, nothing closed is
+forgotten -/
+theorem xinv_step {s s' : S} (hx : s'.cl.xf.fd = s.cl.xf.fd) (htt : s'.cl.tight = s.cl.tight)
+    (hg : ∀ k, Got k s' → Got k s) (hc : ∀ k, Closed k s → Closed k s') (h : XInv s) : XInv s' := by
+  obtain ⟨ha, hw⟩ := h
+  refine ⟨fun k hk => ?_, by unfold TightWf; rw [htt]; exact hw⟩
   rcases ha k (hg k hk) with h3 | h3
-  · left; rw [hx]; exact h3
+  · left; unfold HeldC at *; rw [hx, htt]; exact h3
   · right; exact hc k h3
 
 /-- an event that neither opens nor closes -/
 theorem xinv_emit (e) (s : S) (hg : ∀ k, e ≠ .got k) (h : XInv s) : XInv (emit e s) :=
-  xinv_step (s := s) (s' := emit e s) rfl rfl (fun h => h) (fun k hk => by
+  xinv_step (s := s) (s' := emit e s) rfl rfl (fun k hk => by
     rcases (got_emit k e s).mp hk with h1 | h1
     · exact absurd h1 (hg k)
     · exact h1) (fun k hk => (closed_emit k e s).mpr (Or.inr hk)) h
 
-theorem xinv_setCl (f) (s : S) (hx : (f s.cl).xf.fd = s.cl.xf.fd) (hte : (f s.cl).tightExt = s.cl.tightExt)
+theorem xinv_setCl (f) (s : S) (hx : (f s.cl).xf.fd = s.cl.xf.fd) (_hte : (f s.cl).tightExt = s.cl.tightExt)
     (htt : (f s.cl).tight = s.cl.tight) (h : XInv s) : XInv (setCl f s) :=
-  xinv_step (s := s) (s' := setCl f s) hx hte (fun h => by show (f s.cl).tight = none; rw [htt]; exact h) (fun _ h => h) (fun _ h => h) h
+  xinv_step (s := s) (s' := setCl f s) hx htt (fun _ h => h) (fun _ h => h) h
 
 theorem xinv_popTok (s : S) (h : XInv s) : XInv (popTok s).2 := by
   unfold popTok; split
   · exact h
   · rename_i t r _
-    exact xinv_step (s := s) (s' := { s with env := r }) rfl rfl (fun h => h) (fun _ h => h) (fun _ h => h) h
+    exact xinv_step (s := s) (s' := { s with env := r }) rfl rfl (fun _ h => h) (fun _ h => h) h
 theorem xinv_bumpCalls (s : S) (h : XInv s) : XInv (bumpCalls s) :=
-  xinv_step (s := s) (s' := bumpCalls s) rfl rfl (fun h => h) (fun _ h => h) (fun _ h => h) h
+  xinv_step (s := s) (s' := bumpCalls s) rfl rfl (fun _ h => h) (fun _ h => h) h
 
 /-! libc calls other than open -/
 theorem doClose_xinv (t j) (s : S) (h : XInv s) : XInv (doClose t j s) := by
@@ -120,11 +130,190 @@ theorem doUncompress_xinv (n) (s : S) (h : XInv s) : XInv (doUncompress n s).2 :
     | exact xinv_emit _ _ (by intro k; simp) (xinv_emit _ _ (by intro k; simp) hp)
 
 /-! teardown and the permission tests -/
+theorem closed_mono_emit (k e) (s : S) (h : Closed k s) : Closed k (emit e s) :=
+  (closed_emit k e s).mpr (Or.inr h)
+theorem popTok_got (k) (s : S) : Got k (popTok s).2 ↔ Got k s := by unfold popTok; split <;> rfl
+theorem popTok_closed (k) (s : S) : Closed k (popTok s).2 ↔ Closed k s := by unfold popTok; split <;> rfl
+theorem doClose_closed (k t) (s : S) : Closed k (doClose t k s) := by
+  unfold doClose; split <;> simp [isCloseOf]
+theorem doClose_closed_mono (k t j) (s : S) (h : Closed k s) : Closed k (doClose t j s) := by
+  unfold doClose; split <;> exact closed_mono_emit _ _ _ h
+theorem doClose_got (k t j) (s : S) : Got k (doClose t j s) ↔ Got k s := by
+  unfold doClose; split <;> simp
+theorem doSimple_got (k t e) (s : S) : Got k (doSimple t e s).2 ↔ Got k s := by
+  unfold doSimple; ftsplit [popTok_got]
+theorem doSimple_closed_mono (k t e) (s : S) (h : Closed k s) : Closed k (doSimple t e s).2 := by
+  have hp := (popTok_closed k s).mpr h
+  unfold doSimple
+  ftsplit
+  all_goals first
+    | exact closed_mono_emit _ _ _ hp
+    | exact closed_mono_emit _ _ _ (closed_mono_emit _ _ _ hp)
+
+/-- closing (if any) the descriptor `fd` -/
+def closeOpt (t : Bool) (fd : Option Nat) (s : S) : S :=
+  match fd with
+  | some k => doClose t k s
+  | none => s
+theorem closeOpt_cl (t fd) (s : S) : (closeOpt t fd s).cl = s.cl := by
+  unfold closeOpt; split <;> simp
+theorem closeOpt_got (k t fd) (s : S) : Got k (closeOpt t fd s) ↔ Got k s := by
+  unfold closeOpt; split
+  · exact doClose_got _ _ _ _
+  · rfl
+theorem closeOpt_closed_mono (k t fd) (s : S) (h : Closed k s) : Closed k (closeOpt t fd s) := by
+  unfold closeOpt; split
+  · exact doClose_closed_mono _ _ _ _ h
+  · exact h
+theorem closeOpt_closed (k t) (s : S) : Closed k (closeOpt t (some k) s) := doClose_closed _ _ _
+
+/-- CloseUndoneFileUpload keeps the accounting: the upload descriptor it forgets has been closed -/
+theorem closeUndoneUpload_xinv (t) (s : S) (h : XInv s) : XInv (closeUndoneUpload t s) := by
+  unfold closeUndoneUpload
+  cases ht : s.cl.tight with
+  | none => simpa [ht] using h
+  | some tt =>
+    simp only []
+    by_cases hp : tt.up.inProgress = true
+    · rw [if_pos hp]
+      obtain ⟨ha, hw⟩ := h
+      show XInv (setCl (fun c => { c with tight := some { tt with up := {} } })
+        (doSimple t (.unlink tt.up.fName) (closeOpt t tt.up.fd s)).2)
+      refine ⟨?_, ?_⟩
+      · intro k hk
+        have hk' : Got k s := (closeOpt_got k t _ s).mp ((doSimple_got k t _ _).mp hk)
+        rcases ha k hk' with h1 | h1
+        · rcases h1 with h1 | ⟨t2, ht2, h1 | h1⟩
+          · left; left
+            show (doSimple t _ (closeOpt t tt.up.fd s)).2.cl.xf.fd = some k
+            rw [doSimple_cl, closeOpt_cl]; exact h1
+          · right
+            rw [ht] at ht2; cases ht2
+            show Closed k (doSimple t _ (closeOpt t tt.up.fd s)).2
+            rw [h1]; exact doSimple_closed_mono _ _ _ _ (closeOpt_closed _ _ _)
+          · left; right
+            rw [ht] at ht2; cases ht2
+            exact ⟨{ tt with up := {} }, rfl, Or.inr h1⟩
+        · right
+          show Closed k (doSimple t _ (closeOpt t tt.up.fd s)).2
+          exact doSimple_closed_mono _ _ _ _ (closeOpt_closed_mono _ _ _ _ h1)
+      · intro t2 ht2
+        have : t2 = { tt with up := {} } := (Option.some.inj ht2).symm
+        subst this
+        exact ⟨fun k hk => by simp at hk, (hw tt ht).2⟩
+    · rw [if_neg hp]; exact h
+
+/-- after CloseUndoneFileUpload the record holds no upload descriptor -/
+theorem closeUndoneUpload_upfd (t) (s : S) (h : TightWf s.cl) :
+    ∀ t2, (closeUndoneUpload t s).cl.tight = some t2 → t2.up.fd = none := by
+  unfold closeUndoneUpload
+  cases ht : s.cl.tight with
+  | none => intro t2 h2; simp [ht] at h2
+  | some tt =>
+    simp only []
+    by_cases hp : tt.up.inProgress = true
+    · rw [if_pos hp]
+      intro t2 ht2
+      have : t2 = { tt with up := {} } := (Option.some.inj ht2).symm
+      subst this; rfl
+    · rw [if_neg hp]
+      intro t2 ht2
+      rw [ht] at ht2; cases ht2
+      cases hfd : tt.up.fd with
+      | none => rfl
+      | some k => exact absurd ((h tt ht).1 k hfd) hp
+
+theorem closeUndoneDownload_xinv (t) (s : S) (h : XInv s) : XInv (closeUndoneDownload t s) := by
+  unfold closeUndoneDownload
+  cases ht : s.cl.tight with
+  | none => simpa [ht] using h
+  | some tt =>
+    simp only []
+    by_cases hp : tt.dn.inProgress = true
+    · rw [if_pos hp]
+      obtain ⟨ha, hw⟩ := h
+      show XInv (setCl (fun c => { c with tight := some { tt with dn := {} } }) (closeOpt t tt.dn.fd s))
+      refine ⟨?_, ?_⟩
+      · intro k hk
+        have hk' : Got k s := (closeOpt_got k t _ s).mp hk
+        rcases ha k hk' with h1 | h1
+        · rcases h1 with h1 | ⟨t2, ht2, h1 | h1⟩
+          · left; left
+            show (closeOpt t tt.dn.fd s).cl.xf.fd = some k
+            rw [closeOpt_cl]; exact h1
+          · left; right
+            rw [ht] at ht2; cases ht2
+            exact ⟨{ tt with dn := {} }, rfl, Or.inl h1⟩
+          · right
+            rw [ht] at ht2; cases ht2
+            show Closed k (closeOpt t tt.dn.fd s)
+            rw [h1]; exact closeOpt_closed _ _ _
+        · right
+          exact closeOpt_closed_mono _ _ _ _ h1
+      · intro t2 ht2
+        have : t2 = { tt with dn := {} } := (Option.some.inj ht2).symm
+        subst this
+        exact ⟨(hw tt ht).1, fun k hk => by simp at hk⟩
+    · rw [if_neg hp]; exact h
+
+theorem closeUndoneDownload_fds (t) (s : S) (h : TightWf s.cl) :
+    ∀ t2, (closeUndoneDownload t s).cl.tight = some t2 →
+      t2.dn.fd = none ∧ ∀ tt, s.cl.tight = some tt → t2.up = tt.up := by
+  unfold closeUndoneDownload
+  cases ht : s.cl.tight with
+  | none => intro t2 h2; simp [ht] at h2
+  | some tt =>
+    simp only []
+    by_cases hp : tt.dn.inProgress = true
+    · rw [if_pos hp]
+      intro t2 ht2
+      have : t2 = { tt with dn := {} } := (Option.some.inj ht2).symm
+      subst this
+      exact ⟨rfl, fun t3 h3 => by cases h3; rfl⟩
+    · rw [if_neg hp]
+      intro t2 ht2
+      rw [ht] at ht2; cases ht2
+      refine ⟨?_, fun t3 h3 => by cases h3; rfl⟩
+      cases hfd : tt.dn.fd with
+      | none => rfl
+      | some k => exact absurd ((h tt ht).2 k hfd) hp
+
+/-- rfbCloseClient: the extension's close hook has closed what it forgets -/
 theorem closeClient_xinv (s : S) (h : XInv s) : XInv (closeClient s) := by
-  have ht : s.cl.tight = none := h.2.2
   unfold closeClient
-  simp only [ht]
-  exact xinv_emit _ _ (by intro k; simp) (xinv_setCl _ _ rfl rfl rfl h)
+  cases ht : s.cl.tight with
+  | none =>
+    simp only []
+    exact xinv_emit _ _ (by intro k; simp) (xinv_setCl _ _ rfl rfl rfl h)
+  | some tt =>
+    simp only []
+    have h1 := closeUndoneUpload_xinv true s h
+    have h2 := closeUndoneDownload_xinv true _ h1
+    have hu := closeUndoneUpload_upfd true s h.2
+    have hd := closeUndoneDownload_fds true _ h1.2
+    apply xinv_emit _ _ (by intro k; simp)
+    apply xinv_setCl _ _ rfl rfl rfl
+    -- forgetting the extension data: both of its descriptor slots are empty
+    obtain ⟨ha, hw⟩ := h2
+    refine ⟨fun k hk => ?_, fun t2 h2 => by cases h2⟩
+    rcases ha k hk with h3 | h3
+    · rcases h3 with h3 | ⟨t2, ht2, h3 | h3⟩
+      · exact Or.inl (Or.inl h3)
+      · exfalso
+        obtain ⟨_, hup⟩ := hd t2 ht2
+        cases htu : (closeUndoneUpload true s).cl.tight with
+        | none =>
+          -- the download hook does not create extension data
+          unfold closeUndoneDownload at ht2
+          simp [htu] at ht2
+        | some t1 =>
+          have := hup t1 htu
+          rw [this, hu t1 htu] at h3
+          cases h3
+      · exfalso
+        rw [(hd t2 ht2).1] at h3
+        cases h3
+    · exact Or.inr h3
 theorem consult_xinv (f) (s : S) (h : XInv s) : XInv (consult f s).2 := by
   unfold consult
   exact xinv_emit _ _ (by intro k; simp) (xinv_bumpCalls s h)
@@ -171,11 +360,7 @@ theorem readBuffer_xinv (cfg n) (s : S) (h : XInv s) : XInv (readBuffer cfg n s)
 
 /-! ### opening and replacing the recorded descriptor -/
 
-theorem closed_mono_emit (k e) (s : S) (h : Closed k s) : Closed k (emit e s) :=
-  (closed_emit k e s).mpr (Or.inr h)
 
-theorem popTok_got (k) (s : S) : Got k (popTok s).2 ↔ Got k s := by unfold popTok; split <;> rfl
-theorem popTok_closed (k) (s : S) : Closed k (popTok s).2 ↔ Closed k s := by unfold popTok; split <;> rfl
 
 theorem doOpen_got (k p m) (s : S) (h : Got k (doOpen p m s).2) : (doOpen p m s).1 = some k ∨ Got k s := by
   unfold doOpen at h ⊢
@@ -201,12 +386,6 @@ theorem doOpen_closed (k p m) (s : S) (h : Closed k s) : Closed k (doOpen p m s)
     · exact closed_mono_emit _ _ _ (closed_mono_emit _ _ _ hp)
     · exact closed_mono_emit _ _ _ (closed_mono_emit _ _ _ hp)
   · exact closed_mono_emit _ _ _ (closed_mono_emit _ _ _ hp)
-theorem doClose_closed (k t) (s : S) : Closed k (doClose t k s) := by
-  unfold doClose; split <;> simp [isCloseOf]
-theorem doClose_closed_mono (k t j) (s : S) (h : Closed k s) : Closed k (doClose t j s) := by
-  unfold doClose; split <;> exact closed_mono_emit _ _ _ h
-theorem doClose_got (k t j) (s : S) : Got k (doClose t j s) ↔ Got k s := by
-  unfold doClose; split <;> simp
 theorem doFstat_got (k j) (s : S) : Got k (doFstat j s).2 ↔ Got k s := by
   unfold doFstat; ftsplit [popTok_got]
 theorem doFstat_closed (k j) (s : S) (h : Closed k s) : Closed k (doFstat j s).2 := by
@@ -262,21 +441,22 @@ theorem xinv_replace {s0 s1 : S} (r : Option Nat) (f : Client → Client) (h : X
     (hold : ∀ k, s0.cl.xf.fd = some k → r = some k ∨ Closed k s1)
     (hf : (f s1.cl).xf.fd = r) (hte : (f s1.cl).tightExt = s1.cl.tightExt)
     (htt : (f s1.cl).tight = s1.cl.tight) : XInv (setCl f s1) := by
-  obtain ⟨ha, h1, h2⟩ := h
-  refine ⟨fun k hk => ?_, ?_, ?_⟩
+  obtain ⟨ha, hw⟩ := h
+  refine ⟨fun k hk => ?_, ?_⟩
   · have hk1 : Got k s1 := hk
-    show (f s1.cl).xf.fd = some k ∨ Closed k s1
-    rw [hf]
+    show HeldC k (f s1.cl) ∨ Closed k s1
     rcases hg k hk1 with h3 | h3 | h3
-    · exact Or.inl h3
+    · exact Or.inl (Or.inl (by rw [hf]; exact h3))
     · exact Or.inr h3
     · rcases ha k h3 with h4 | h4
-      · exact hold k h4
+      · rcases h4 with h4 | h4
+        · rcases hold k h4 with h5 | h5
+          · exact Or.inl (Or.inl (by rw [hf]; exact h5))
+          · exact Or.inr h5
+        · left; right; rw [htt, hcl]; exact h4
       · exact Or.inr (hc k h4)
-  · show (f s1.cl).tightExt = false
-    rw [hte, hcl]; exact h1
-  · show (f s1.cl).tight = none
-    rw [htt, hcl]; exact h2
+  · show TightWf (f s1.cl)
+    unfold TightWf; rw [htt, hcl]; exact hw
 
 @[simp] theorem macroCheck_xf (cfg) (s : S) : (macroCheck cfg s).2.cl.xf = s.cl.xf := by
   unfold macroCheck; ftsplit
@@ -485,12 +665,382 @@ theorem processFT_xinv (cfg ct cp size len) (s : S) (h : XInv s) : XInv (process
     · exact ftCommand_xinv _ _ _ _ h1
     · exact h1
 
-/-- a client without the extension: any TightVNC message type is "unknown" and closes -/
+/-! ### TightVNC extension -/
+
+/-- an update of the extension data that keeps both descriptor slots and both flags -/
+theorem xinv_setTight (g : Tight → Tight) (s : S)
+    (hu : ∀ t, (g t).up.fd = t.up.fd) (hd : ∀ t, (g t).dn.fd = t.dn.fd)
+    (hup : ∀ t, (g t).up.inProgress = t.up.inProgress) (hdp : ∀ t, (g t).dn.inProgress = t.dn.inProgress)
+    (h : XInv s) : XInv (setTight g s) := by
+  obtain ⟨ha, hw⟩ := h
+  refine ⟨fun k hk => ?_, ?_⟩
+  · rcases ha k hk with h1 | h1
+    · rcases h1 with h1 | ⟨t, ht, h1⟩
+      · exact Or.inl (Or.inl h1)
+      · left; right
+        refine ⟨g t, by simp [setTight, setCl, ht], ?_⟩
+        rw [hu, hd]; exact h1
+    · exact Or.inr h1
+  · intro t2 ht2
+    cases ht : s.cl.tight with
+    | none => simp [setTight, setCl, ht] at ht2
+    | some t =>
+      have : t2 = g t := by simp [setTight, setCl, ht] at ht2; exact ht2.symm
+      subst this
+      rw [hu, hd, hup, hdp]; exact hw t ht
+theorem xinv_setUp_same (f) (s : S) (hfd : ∀ u, (f u).fd = u.fd) (hip : ∀ u, (f u).inProgress = u.inProgress)
+    (h : XInv s) : XInv (setUp f s) :=
+  xinv_setTight _ s (fun t => hfd t.up) (fun _ => rfl) (fun t => hip t.up) (fun _ => rfl) h
+theorem xinv_setDn_same (f) (s : S) (hfd : ∀ u, (f u).fd = u.fd) (hip : ∀ u, (f u).inProgress = u.inProgress)
+    (h : XInv s) : XInv (setDn f s) :=
+  xinv_setTight _ s (fun _ => rfl) (fun t => hfd t.dn) (fun _ => rfl) (fun t => hip t.dn) h
+
+/-- the extension's descriptor slots are rewritten by `g` in a state `s1` reached from `s0` without
+touching the record: fine if every forgotten descriptor was closed on the way and every new
+descriptor is recorded or closed -/
+theorem xinv_replace_tight {s0 s1 : S} (g : Tight → Tight) (h : XInv s0) (hcl : s1.cl = s0.cl)
+    (hg : ∀ k, Got k s1 →
+      (∃ t, s0.cl.tight = some t ∧ ((g t).up.fd = some k ∨ (g t).dn.fd = some k)) ∨ Closed k s1 ∨ Got k s0)
+    (hc : ∀ k, Closed k s0 → Closed k s1)
+    (hold : ∀ t k, s0.cl.tight = some t → (t.up.fd = some k ∨ t.dn.fd = some k) →
+      ((g t).up.fd = some k ∨ (g t).dn.fd = some k) ∨ Closed k s1)
+    (hwf : ∀ t, s0.cl.tight = some t →
+      (∀ k, (g t).up.fd = some k → (g t).up.inProgress = true) ∧
+      (∀ k, (g t).dn.fd = some k → (g t).dn.inProgress = true)) :
+    XInv (setTight g s1) := by
+  obtain ⟨ha, hw⟩ := h
+  have htm : ∀ t, s0.cl.tight = some t → (setTight g s1).cl.tight = some (g t) := by
+    intro t ht; simp [setTight, setCl, hcl, ht]
+  refine ⟨fun k hk => ?_, ?_⟩
+  · have hk1 : Got k s1 := hk
+    show HeldC k (setTight g s1).cl ∨ Closed k s1
+    rcases hg k hk1 with ⟨t, ht, h3⟩ | h3 | h3
+    · exact Or.inl (Or.inr ⟨g t, htm t ht, h3⟩)
+    · exact Or.inr h3
+    · rcases ha k h3 with h4 | h4
+      · rcases h4 with h4 | ⟨t, ht, h4⟩
+        · left; left
+          show s1.cl.xf.fd = some k
+          rw [hcl]; exact h4
+        · rcases hold t k ht h4 with h5 | h5
+          · exact Or.inl (Or.inr ⟨g t, htm t ht, h5⟩)
+          · exact Or.inr h5
+      · exact Or.inr (hc k h4)
+  · intro t2 ht2
+    cases ht : s0.cl.tight with
+    | none => simp [setTight, setCl, hcl, ht] at ht2
+    | some t =>
+      rw [htm t ht] at ht2
+      cases ht2
+      exact hwf t ht
+
+theorem twire_xinv (w) (s : S) (h : XInv s) : XInv (twire w s) :=
+  xinv_emit _ _ (by intro k; simp) h
+
+theorem tListLoop_xinv (path wf) (names : List Path) (acc) (s : S) (h : XInv s) :
+    XInv (tListLoop path wf names acc s).2 := by
+  induction names generalizing s acc with
+  | nil => unfold tListLoop; exact h
+  | cons name rest ih =>
+    unfold tListLoop
+    simp only []
+    split
+    · exact ih _ _ h
+    · split <;> exact ih _ _ (doStat_xinv _ _ h)
+theorem tListDir_xinv (flags path) (s : S) (h : XInv s) : XInv (tListDir flags path s) := by
+  unfold tListDir
+  simp only []
+  split
+  · exact twire_xinv _ _ (doOpendir_xinv _ _ h)
+  · exact twire_xinv _ _ (xinv_emit _ _ (by intro k; simp) (tListLoop_xinv _ _ _ _ _ (doOpendir_xinv _ _ h)))
+theorem tList_xinv (cfg) (s : S) (h : XInv s) : XInv (tList cfg s) := by
+  have h1 := readExact_xinv 3 s h
+  unfold tList
+  simp only []
+  split
+  · exact closeClient_xinv _ h1
+  · split
+    · exact h1
+    · split
+      · exact closeClient_xinv _ (readExact_xinv _ _ h1)
+      · split
+        · exact readExact_xinv _ _ h1
+        · exact tListDir_xinv _ _ _ (readExact_xinv _ _ h1)
+theorem tLengthError_xinv (n w) (s : S) (h : XInv s) : XInv (tLengthError n w s) := by
+  unfold tLengthError
+  simp only []
+  split
+  · exact closeClient_xinv _ (readExact_xinv _ _ h)
+  · exact twire_xinv _ _ (readExact_xinv _ _ h)
+
+/-- end of a download: the descriptor is closed, then forgotten -/
+theorem tDownloadEnd_xinv (fd w) (s : S) (hfd : ∀ t, s.cl.tight = some t → t.dn.fd = some fd) (h : XInv s) :
+    XInv (tDownloadEnd fd w s) := by
+  unfold tDownloadEnd
+  apply twire_xinv
+  refine xinv_replace_tight (s0 := s) _ h (doClose_cl _ _ _) ?_ ?_ ?_ ?_
+  · intro k hk; exact Or.inr (Or.inr ((doClose_got k false fd s).mp hk))
+  · intro k hk; exact doClose_closed_mono _ _ _ _ hk
+  · intro t k ht hk
+    rcases hk with hk | hk
+    · exact Or.inl (Or.inl hk)
+    · right
+      rw [hfd t ht] at hk; cases hk
+      exact doClose_closed _ _ _
+  · intro t ht
+    exact ⟨(h.2 t ht).1, fun k hk => by simp at hk⟩
+
+theorem tDownloadLoop_xinv (fd fuel) (s : S) (hfd : ∀ t, s.cl.tight = some t → t.dn.fd = some fd)
+    (h : XInv s) : XInv (tDownloadLoop fd fuel s) := by
+  induction fuel generalizing s with
+  | zero => unfold tDownloadLoop; exact h
+  | succ n ih =>
+    have h1 := doRead_xinv fd s h
+    have hfd1 : ∀ t, (doRead fd s).2.cl.tight = some t → t.dn.fd = some fd := by
+      intro t ht; rw [doRead_cl] at ht; exact hfd t ht
+    unfold tDownloadLoop
+    simp only []
+    split
+    · exact tDownloadEnd_xinv _ _ _ hfd1 h1
+    · exact tDownloadEnd_xinv _ _ _ hfd1 h1
+    · exact ih _ (by intro t ht; exact hfd1 t ht) (twire_xinv _ _ h1)
+
+theorem doOpen_fail_xinv (p m) (s : S) (hn : (doOpen p m s).1 = none) (h : XInv s) : XInv (doOpen p m s).2 := by
+  refine xinv_step (s := s) (by rw [doOpen_cl]) (by rw [doOpen_cl]) ?_ (fun k hk => doOpen_closed _ _ _ _ hk) h
+  intro k hk
+  rcases doOpen_got k p m s hk with h1 | h1
+  · rw [hn] at h1; cases h1
+  · exact h1
+
+theorem tDownloadRun_xinv (path) (s : S) (h : XInv s) : XInv (tDownloadRun path s) := by
+  unfold tDownloadRun
+  cases ht : s.cl.tight with
+  | none => exact h
+  | some t =>
+    simp only []
+    split
+    · rename_i hidle
+      cases ho : (doOpen path .rd s).1 with
+      | none =>
+        simp only [ho]
+        exact twire_xinv _ _ (doOpen_fail_xinv _ _ _ ho h)
+      | some k =>
+        simp only [ho]
+        apply tDownloadLoop_xinv
+        · intro t2 ht2
+          simp only [setDn_tight, doOpen_cl, ht, Option.map_some, Option.some.injEq] at ht2
+          subst ht2; rfl
+        · refine xinv_replace_tight (s0 := s) _ h (doOpen_cl _ _ _) ?_ ?_ ?_ ?_
+          · intro j hj
+            rcases doOpen_got j path .rd s hj with h1 | h1
+            · left
+              rw [ho] at h1
+              exact ⟨t, ht, Or.inr (by simpa using h1)⟩
+            · exact Or.inr (Or.inr h1)
+          · intro j hj; exact doOpen_closed _ _ _ _ hj
+          · intro t2 j ht2 hj
+            rw [ht] at ht2; cases ht2
+            rcases hj with hj | hj
+            · exact Or.inl (Or.inl hj)
+            · exfalso
+              simp only [Bool.not_eq_true', Option.isNone_iff_eq_none] at hidle
+              rw [hidle.2] at hj; cases hj
+          · intro t2 ht2
+            rw [ht] at ht2; cases ht2
+            exact ⟨(h.2 t ht).1, fun _ _ => rfl⟩
+    · exact twire_xinv _ _ h
+
+theorem tDownloadPath_xinv (path) (s : S) (h : XInv s) : XInv (tDownloadPath path s) := by
+  have h0 := xinv_setDn_same (fun d => { d with fName := path }) s (fun _ => rfl) (fun _ => rfl) h
+  have h1 := doStat_xinv path _ h0
+  unfold tDownloadPath
+  simp only []
+  split
+  · split
+    · exact twire_xinv _ _ h1
+    · exact tDownloadRun_xinv _ _ (closeUndoneDownload_xinv _ _ h1)
+  · exact twire_xinv _ _ h1
+
+theorem tDownload_xinv (cfg) (s : S) (h : XInv s) : XInv (tDownload cfg s) := by
+  have h1 := readExact_xinv 7 s h
+  unfold tDownload
+  simp only []
+  split
+  · exact closeClient_xinv _ h1
+  · split
+    · exact tLengthError_xinv _ _ _ h1
+    · have h2 := readExact_xinv (be16 ((‹Bytes›).getD 1 0) ((‹Bytes›).getD 2 0)) _ h1
+      split
+      · exact closeClient_xinv _ (readExact_xinv _ _ h1)
+      · split
+        · exact twire_xinv _ _ (xinv_setDn_same _ _ (fun _ => rfl) (fun _ => rfl) (readExact_xinv _ _ h1))
+        · exact tDownloadPath_xinv _ _ (readExact_xinv _ _ h1)
+
+/-- HandleFileUpload: the old upload descriptor is closed before the record is reset (the fix), the
+new one is recorded together with its in-progress flag -/
+theorem tUploadPath_xinv (path) (s : S) (hs : ∃ t, s.cl.tight = some t) (h : XInv s) :
+    XInv (tUploadPath path s) := by
+  obtain ⟨t, ht⟩ := hs
+  unfold tUploadPath
+  simp only []
+  -- step A: close the old descriptor, reset the upload half
+  have hA : XInv (setUp (fun _ => ({ fd := none, inProgress := false, fName := path } : TSide))
+      (closeOpt false (s.cl.tight.bind (·.up.fd)) s)) := by
+    refine xinv_replace_tight (s0 := s) _ h (closeOpt_cl _ _ _) ?_ ?_ ?_ ?_
+    · intro k hk; exact Or.inr (Or.inr ((closeOpt_got k false _ s).mp hk))
+    · intro k hk; exact closeOpt_closed_mono _ _ _ _ hk
+    · intro t2 k ht2 hk
+      rw [ht] at ht2; cases ht2
+      rcases hk with hk | hk
+      · right
+        have : s.cl.tight.bind (·.up.fd) = some k := by simp [ht, hk]
+        rw [this]; exact closeOpt_closed _ _ _
+      · exact Or.inl (Or.inr hk)
+    · intro t2 ht2
+      exact ⟨fun k hk => by simp at hk, (h.2 t2 ht2).2⟩
+  have hAt : (setUp (fun _ => ({ fd := none, inProgress := false, fName := path } : TSide))
+      (closeOpt false (s.cl.tight.bind (·.up.fd)) s)).cl.tight
+      = some { t with up := { fd := none, inProgress := false, fName := path } } := by
+    simp [setUp_tight, closeOpt_cl, ht]
+  show XInv (match (doOpen path .wrct (setUp _ (closeOpt false (s.cl.tight.bind (·.up.fd)) s))).1 with
+    | none => twire _ (doOpen path .wrct (setUp _ (closeOpt false (s.cl.tight.bind (·.up.fd)) s))).2
+    | some k => setUp _ (doOpen path .wrct (setUp _ (closeOpt false (s.cl.tight.bind (·.up.fd)) s))).2)
+  generalize hsA : setUp (fun _ => ({ fd := none, inProgress := false, fName := path } : TSide))
+      (closeOpt false (s.cl.tight.bind (·.up.fd)) s) = sA at hA hAt
+  cases ho : (doOpen path .wrct sA).1 with
+  | none => exact twire_xinv _ _ (doOpen_fail_xinv _ _ _ ho hA)
+  | some k =>
+    refine xinv_replace_tight (s0 := sA) _ hA (doOpen_cl _ _ _) ?_ ?_ ?_ ?_
+    · intro j hj
+      rcases doOpen_got j path .wrct sA hj with h1 | h1
+      · left
+        rw [ho] at h1
+        exact ⟨_, hAt, Or.inl (by simpa using h1)⟩
+      · exact Or.inr (Or.inr h1)
+    · intro j hj; exact doOpen_closed _ _ _ _ hj
+    · intro t2 j ht2 hj
+      rw [hAt] at ht2; cases ht2
+      rcases hj with hj | hj
+      · simp at hj
+      · exact Or.inl (Or.inr hj)
+    · intro t2 ht2
+      rw [hAt] at ht2; cases ht2
+      exact ⟨fun _ _ => rfl, (hA.2 _ hAt).2⟩
+
+theorem tUpload_xinv (cfg) (s : S) (hs : ∃ t, s.cl.tight = some t) (h : XInv s) : XInv (tUpload cfg s) := by
+  have h1 := readExact_xinv 7 s h
+  unfold tUpload
+  simp only []
+  split
+  · exact closeClient_xinv _ h1
+  · split
+    · exact tLengthError_xinv _ _ _ h1
+    · split
+      · exact closeClient_xinv _ (readExact_xinv _ _ h1)
+      · split
+        · exact twire_xinv _ _ (xinv_setUp_same _ _ (fun _ => rfl) (fun _ => rfl) (readExact_xinv _ _ h1))
+        · exact tUploadPath_xinv _ _ (by simpa using hs) (readExact_xinv _ _ h1)
+
+theorem tUploadComplete_xinv (s : S) (h : XInv s) : XInv (tUploadComplete s) := by
+  unfold tUploadComplete
+  cases ht : s.cl.tight with
+  | none => exact h
+  | some t =>
+    simp only []
+    cases hfd : t.up.fd with
+    | none => exact doSimple_xinv _ _ _ h
+    | some k =>
+      simp only []
+      refine xinv_replace_tight (s0 := s) _ h (by rw [doClose_cl, doSimple_cl]) ?_ ?_ ?_ ?_
+      · intro j hj
+        exact Or.inr (Or.inr ((doSimple_got j false _ s).mp ((doClose_got j false k _).mp hj)))
+      · intro j hj; exact doClose_closed_mono _ _ _ _ (doSimple_closed_mono _ _ _ _ hj)
+      · intro t2 j ht2 hj
+        rw [ht] at ht2; cases ht2
+        rcases hj with hj | hj
+        · right
+          rw [hfd] at hj; cases hj
+          exact doClose_closed _ _ _
+        · exact Or.inl (Or.inr hj)
+      · intro t2 ht2
+        exact ⟨fun j hj => by simp at hj, (h.2 t2 ht2).2⟩
+
+theorem tUploadWrite_xinv (c b) (s : S) (h : XInv s) : XInv (tUploadWrite c b s) := by
+  unfold tUploadWrite
+  cases ht : s.cl.tight with
+  | none => exact h
+  | some t =>
+    simp only []
+    split
+    · split
+      · exact doWrite_xinv _ _ _ _ h
+      · exact twire_xinv _ _ (closeUndoneUpload_xinv _ _ (doWrite_xinv _ _ _ _ h))
+    · exact twire_xinv _ _ (closeUndoneUpload_xinv _ _ h)
+
+theorem tUploadData_xinv (s : S) (h : XInv s) : XInv (tUploadData s) := by
+  have h1 := readExact_xinv 5 s h
+  unfold tUploadData
+  simp only []
+  split
+  · exact closeClient_xinv _ h1
+  · split
+    · split
+      · exact closeClient_xinv _ (readExact_xinv _ _ h1)
+      · exact tUploadComplete_xinv _ (readExact_xinv _ _ h1)
+    · split
+      · exact closeClient_xinv _ (readExact_xinv _ _ h1)
+      · split
+        · exact closeUndoneUpload_xinv _ _ (twire_xinv _ _ (readExact_xinv _ _ h1))
+        · exact tUploadWrite_xinv _ _ _ (readExact_xinv _ _ h1)
+
+theorem tReason_xinv (u) (s : S) (h : XInv s) : XInv (tReason u s) := by
+  have h1 := readExact_xinv 3 s h
+  unfold tReason
+  simp only []
+  split
+  · exact closeClient_xinv _ h1
+  · split
+    · exact h1
+    · split
+      · exact closeClient_xinv _ (readExact_xinv _ _ h1)
+      · split
+        · exact closeUndoneUpload_xinv _ _ (readExact_xinv _ _ h1)
+        · exact closeUndoneDownload_xinv _ _ (readExact_xinv _ _ h1)
+
+theorem tMkdir_xinv (cfg) (s : S) (h : XInv s) : XInv (tMkdir cfg s) := by
+  have h1 := readExact_xinv 3 s h
+  unfold tMkdir
+  simp only []
+  split
+  · exact closeClient_xinv _ h1
+  · split
+    · exact closeClient_xinv _ h1
+    · split
+      · exact closeClient_xinv _ (readExact_xinv _ _ h1)
+      · split
+        · exact readExact_xinv _ _ h1
+        · exact doSimple_xinv _ _ _ (readExact_xinv _ _ h1)
+
 theorem tightMsg_xinv (cfg ty) (s : S) (h : XInv s) : XInv (tightMsg cfg ty s) := by
-  have ht : s.cl.tightExt = false := h.2.1
+  have h0 := fun b => xinv_emit (.chk b) s (by intro k; simp) h
   unfold tightMsg
-  simp only [ht]
-  exact closeClient_xinv _ (xinv_emit _ _ (by intro k; simp) h)
+  split
+  · exact closeClient_xinv _ (h0 _)
+  · split
+    · exact closeClient_xinv _ (closeClient_xinv _ (h0 _))
+    · cases ht : s.cl.tight with
+      | none => exact closeClient_xinv _ (closeClient_xinv _ (h0 _))
+      | some t =>
+        simp only []
+        split
+        · exact tList_xinv _ _ (h0 _)
+        · exact tDownload_xinv _ _ (h0 _)
+        · exact tUpload_xinv _ _ ⟨t, ht⟩ (h0 _)
+        · exact tUploadData_xinv _ (h0 _)
+        · exact tReason_xinv _ _ (h0 _)
+        · exact tReason_xinv _ _ (h0 _)
+        · exact tMkdir_xinv _ _ (h0 _)
+        · exact closeClient_xinv _ (h0 _)
 
 theorem stepMsg_xinv (cfg) (s : S) (h : XInv s) : XInv (stepMsg cfg s) := by
   have h0 := xinv_emit .start s (by intro k; simp) h
@@ -557,8 +1107,140 @@ theorem runSession_xinv (cfg) (inputs : List Input) (s : S) (h : XInv s) : XInv 
   | cons i rest ih => exact ih _ (sessStep_xinv cfg s h i)
 
 /-- after the teardown the record is empty -/
-theorem teardown_xf_none (s : S) : (reapClient (peerGone s)).cl.xf.fd = none := by
-  unfold reapClient
-  split <;> simp_all [setCl]
+theorem teardown_not_held (s : S) (k : Nat) : ¬ HeldC k (reapClient (peerGone s)).cl := by
+  have ht : (reapClient (peerGone s)).cl.tight = none := by
+    unfold reapClient peerGone
+    split <;> simp [setCl, closeClient_tight]
+  have hx : (reapClient (peerGone s)).cl.xf.fd = none := by
+    unfold reapClient
+    split <;> simp_all [setCl]
+  intro h
+  rcases h with h | ⟨t, h, _⟩
+  · rw [hx] at h; cases h
+  · rw [ht] at h; cases h
+
+/-! ### directory handles: every successful opendir is closed before its handler returns -/
+
+def dirDelta : Ev → Int
+  | .dirOpened => 1
+  | .fs .closedir _ => -1
+  | _ => 0
+
+/-- directory handles open according to the trace -/
+def dirDepth (evs : List Ev) : Int := (evs.map dirDelta).sum
+def DD (s : S) : Int := dirDepth s.evs
+
+@[simp] theorem dd_emit (e) (s : S) : DD (emit e s) = dirDelta e + DD s := by
+  simp [DD, dirDepth, emit]
+@[simp] theorem dd_setCl (f) (s : S) : DD (setCl f s) = DD s := rfl
+@[simp] theorem dd_setNextFd (k) (s : S) : DD (setNextFd k s) = DD s := rfl
+@[simp] theorem dd_bumpCalls (s : S) : DD (bumpCalls s) = DD s := rfl
+@[simp] theorem dd_setTight (f) (s : S) : DD (setTight f s) = DD s := rfl
+@[simp] theorem dd_setUp (f) (s : S) : DD (setUp f s) = DD s := rfl
+@[simp] theorem dd_setDn (f) (s : S) : DD (setDn f s) = DD s := rfl
+@[simp] theorem dd_endTransfer (s : S) : DD (endTransfer s) = DD s := rfl
+@[simp] theorem dd_twire (w) (s : S) : DD (twire w s) = DD s := by simp [twire, dirDelta]
+@[simp] theorem dd_popTok (s : S) : DD (popTok s).2 = DD s := by unfold popTok; split <;> rfl
+
+/-- unfold, split every branch, rewrite with the `DD` lemmas, finish with linear arithmetic -/
+macro "ddsplit" : tactic => `(tactic| (
+  (try simp only []); (repeat' split);
+  all_goals (try simp_all (maxDischargeDepth := 12) [dirDelta]);
+  all_goals (try omega)))
+
+@[simp] theorem dd_doClose (t k) (s : S) : DD (doClose t k s) = DD s := by unfold doClose; ddsplit
+@[simp] theorem dd_doSimple (t e) (s : S) (h : e ≠ .closedir) : DD (doSimple t e s).2 = DD s := by
+  unfold doSimple; cases e <;> simp_all <;> ddsplit
+@[simp] theorem dd_doOpen (p m) (s : S) : DD (doOpen p m s).2 = DD s := by unfold doOpen; ddsplit
+@[simp] theorem dd_doFstat (k) (s : S) : DD (doFstat k s).2 = DD s := by unfold doFstat; ddsplit
+@[simp] theorem dd_doRead (k) (s : S) : DD (doRead k s).2 = DD s := by unfold doRead; ddsplit
+@[simp] theorem dd_doWrite (k n h) (s : S) : DD (doWrite k n h s).2 = DD s := by unfold doWrite; ddsplit
+@[simp] theorem dd_doStat (p) (s : S) : DD (doStat p s).2 = DD s := by unfold doStat; ddsplit
+@[simp] theorem dd_doCompress (n) (s : S) : DD (doCompress n s).2 = DD s := by unfold doCompress; ddsplit
+@[simp] theorem dd_doUncompress (n) (s : S) : DD (doUncompress n s).2 = DD s := by unfold doUncompress; ddsplit
+/-- opendir: one more handle exactly when it succeeded -/
+theorem dd_doOpendir (p) (s : S) :
+    DD (doOpendir p s).2 = DD s + (if (doOpendir p s).1.isSome then 1 else 0) := by
+  unfold doOpendir; ddsplit
+
+@[simp] theorem dd_closeUndoneUpload (t) (s : S) : DD (closeUndoneUpload t s) = DD s := by
+  unfold closeUndoneUpload; ddsplit
+@[simp] theorem dd_closeUndoneDownload (t) (s : S) : DD (closeUndoneDownload t s) = DD s := by
+  unfold closeUndoneDownload; ddsplit
+@[simp] theorem dd_closeClient (s : S) : DD (closeClient s) = DD s := by unfold closeClient; ddsplit
+@[simp] theorem dd_consult (f) (s : S) : DD (consult f s).2 = DD s := by unfold consult; ddsplit
+@[simp] theorem dd_macroCheck (cfg) (s : S) : DD (macroCheck cfg s).2 = DD s := by unfold macroCheck; ddsplit
+@[simp] theorem dd_chunkCheck (cfg) (s : S) : DD (chunkCheck cfg s).2 = DD s := by unfold chunkCheck; ddsplit
+@[simp] theorem dd_translate (cfg p n) (s : S) : DD (translate cfg p n s).2 = DD s := by unfold translate; ddsplit
+@[simp] theorem dd_sendMsg (cfg ct cp size len pl) (s : S) : DD (sendMsg cfg ct cp size len pl s).2 = DD s := by
+  unfold sendMsg; ddsplit
+@[simp] theorem dd_readExact (n) (s : S) : DD (readExact n s).2 = DD s := by unfold readExact; ddsplit
+@[simp] theorem dd_readBuffer (cfg n) (s : S) : DD (readBuffer cfg n s).2 = DD s := by unfold readBuffer; ddsplit
+
+/-- the readdir loop of rfbSendDirContent closes the handle on every path -/
+theorem dd_dirLoop (cfg path) (names : List Path) (s : S) : DD (dirLoop cfg path names s) = DD s - 1 := by
+  induction names generalizing s with
+  | nil => unfold dirLoop; ddsplit
+  | cons name rest ih => unfold dirLoop; ddsplit
+@[simp] theorem dd_sendDirContent (cfg len buf) (s : S) : DD (sendDirContent cfg len buf s) = DD s := by
+  have hd := dd_dirLoop cfg
+  have ho := dd_doOpendir
+  unfold sendDirContent; ddsplit
+@[simp] theorem dd_chunk (cfg) (s : S) : DD (chunk cfg s).2 = DD s := by unfold chunk; ddsplit
+@[simp] theorem dd_closeOld (s : S) : DD (closeOld s) = DD s := by unfold closeOld; ddsplit
+@[simp] theorem dd_openForRead (f) (s : S) : DD (openForRead f s).2 = DD s := by unfold openForRead; ddsplit
+@[simp] theorem dd_ftRequest (cfg size len) (s : S) : DD (ftRequest cfg size len s) = DD s := by
+  unfold ftRequest; ddsplit
+@[simp] theorem dd_ftHeader (cfg size) (s : S) : DD (ftHeader cfg size s) = DD s := by unfold ftHeader; ddsplit
+@[simp] theorem dd_ftOffer (cfg len) (s : S) : DD (ftOffer cfg len s) = DD s := by unfold ftOffer; ddsplit
+@[simp] theorem dd_packetWrite (fd size len buf) (s : S) : DD (packetWrite fd size len buf s).2 = DD s := by
+  unfold packetWrite; ddsplit
+@[simp] theorem dd_ftPacket (cfg size len) (s : S) : DD (ftPacket cfg size len s) = DD s := by unfold ftPacket; ddsplit
+@[simp] theorem dd_ftEof (s : S) : DD (ftEof s) = DD s := by unfold ftEof; ddsplit
+@[simp] theorem dd_ftAbort (cfg cp) (s : S) : DD (ftAbort cfg cp s) = DD s := by unfold ftAbort; ddsplit
+@[simp] theorem dd_deletePath (p) (s : S) : DD (deletePath p s).2 = DD s := by unfold deletePath; ddsplit
+@[simp] theorem dd_ftCommand (cfg cp len) (s : S) : DD (ftCommand cfg cp len s) = DD s := by unfold ftCommand; ddsplit
+@[simp] theorem dd_processFT (cfg ct cp size len) (s : S) : DD (processFT cfg ct cp size len s) = DD s := by
+  unfold processFT; ddsplit
+
+@[simp] theorem dd_tListLoop (path wf) (names : List Path) (acc) (s : S) : DD (tListLoop path wf names acc s).2 = DD s := by
+  induction names generalizing s acc with
+  | nil => unfold tListLoop; rfl
+  | cons name rest ih => unfold tListLoop; ddsplit
+@[simp] theorem dd_tListDir (flags path) (s : S) : DD (tListDir flags path s) = DD s := by
+  have ho := dd_doOpendir
+  unfold tListDir; ddsplit
+@[simp] theorem dd_tList (cfg) (s : S) : DD (tList cfg s) = DD s := by unfold tList; ddsplit
+@[simp] theorem dd_tLengthError (n w) (s : S) : DD (tLengthError n w s) = DD s := by unfold tLengthError; ddsplit
+@[simp] theorem dd_tDownloadLoop (fd fuel) (s : S) : DD (tDownloadLoop fd fuel s) = DD s := by
+  induction fuel generalizing s with
+  | zero => unfold tDownloadLoop; rfl
+  | succ n ih => unfold tDownloadLoop tDownloadEnd; ddsplit
+@[simp] theorem dd_tDownloadRun (path) (s : S) : DD (tDownloadRun path s) = DD s := by unfold tDownloadRun; ddsplit
+@[simp] theorem dd_tDownloadPath (path) (s : S) : DD (tDownloadPath path s) = DD s := by unfold tDownloadPath; ddsplit
+@[simp] theorem dd_tDownload (cfg) (s : S) : DD (tDownload cfg s) = DD s := by unfold tDownload; ddsplit
+@[simp] theorem dd_tUploadPath (path) (s : S) : DD (tUploadPath path s) = DD s := by unfold tUploadPath; ddsplit
+@[simp] theorem dd_tUpload (cfg) (s : S) : DD (tUpload cfg s) = DD s := by unfold tUpload; ddsplit
+@[simp] theorem dd_tUploadComplete (s : S) : DD (tUploadComplete s) = DD s := by unfold tUploadComplete; ddsplit
+@[simp] theorem dd_tUploadWrite (c b) (s : S) : DD (tUploadWrite c b s) = DD s := by unfold tUploadWrite; ddsplit
+@[simp] theorem dd_tUploadData (s : S) : DD (tUploadData s) = DD s := by unfold tUploadData; ddsplit
+@[simp] theorem dd_tReason (u) (s : S) : DD (tReason u s) = DD s := by unfold tReason; ddsplit
+@[simp] theorem dd_tMkdir (cfg) (s : S) : DD (tMkdir cfg s) = DD s := by unfold tMkdir; ddsplit
+@[simp] theorem dd_tightMsg (cfg ty) (s : S) : DD (tightMsg cfg ty s) = DD s := by unfold tightMsg; ddsplit
+@[simp] theorem dd_stepMsg (cfg) (s : S) : DD (stepMsg cfg s) = DD s := by unfold stepMsg; ddsplit
+@[simp] theorem dd_pump (cfg fuel) (s : S) : DD (pump cfg fuel s) = DD s := by
+  induction fuel generalizing s with
+  | zero => rfl
+  | succ n ih => unfold pump; ddsplit
+@[simp] theorem dd_chunkEntry (cfg) (s : S) : DD (chunkEntry cfg s).2 = DD s := by
+  unfold chunkEntry; simp [dirDelta]
+@[simp] theorem dd_peerGone (s : S) : DD (peerGone s) = DD s := by unfold peerGone; simp [dirDelta]
+@[simp] theorem dd_reapClient (s : S) : DD (reapClient s) = DD s := by unfold reapClient; ddsplit
+theorem dd_sessStep (cfg) (s : S) (i : Input) : DD (sessStep cfg s i) = DD s := by
+  cases i <;> simp only [sessStep] <;> ddsplit
+theorem dd_runSession (cfg) (inputs : List Input) (s : S) : DD (runSession cfg s inputs) = DD s := by
+  induction inputs generalizing s with
+  | nil => rfl
+  | cons i rest ih => exact (ih _).trans (dd_sessStep cfg s i)
 
 end VncModel.FileXfer
